@@ -152,6 +152,11 @@ emit_convert = template(is_func=True,
                     target = str(target) \
                         if target is __converted \
                         else __converted
+                    if target is not None \
+                            and not isinstance(target, str):
+                        # the translation is not a string either:
+                        # insert its string form
+                        target = str(target)
                 else:
                     target = __markup()""")
 
@@ -183,6 +188,11 @@ emit_func_convert = template(
                     target = str(target) \
                         if target is __converted \
                         else __converted
+                    if target is not None \
+                            and not isinstance(target, str):
+                        # the translation is not a string either:
+                        # insert its string form
+                        target = str(target)
                 else:
                     target = __markup()
 
@@ -233,6 +243,10 @@ emit_func_convert_and_escape = template(
                 )
                 target = str(target) if target is __converted \
                          else __converted
+                if target is not None and not isinstance(target, str):
+                    # the translation is not a string either: it is its
+                    # string form that is inserted (and escaped below)
+                    target = str(target)
             else:
                 return __markup()
 
